@@ -55,7 +55,8 @@ FwVariants == [foo |-> "Foo", bar |-> "Bar", ask |-> "Ask", poke |-> "Poke", ins
 WhereText(it, e) == [w \in SeqToSet(it.wheres) |->
                         e.input.wheres[CHOOSE i \in 1..Len(it.wheres) : it.wheres[i] = w]]
 GenChecks(it, e) ==
-    \A k \in {"instantiate", "exec", "query", "sudo"} :
+    /\ Chk("C15", "every_alias_of_a_message_type_gives_its_parameters_in_the_types_own_order", l, ApiNamesTypesInOrder(e))
+    /\ \A k \in {"instantiate", "exec", "query", "sudo"} :
         /\ Chk("C15", "message_type_carries_exactly_the_parameters_its_handlers_use", l, GenericsExact(it, e, k))
         /\ Chk("C15", "message_type_is_bounded_only_by_predicates_over_its_own_parameters", l,
                BoundsOnlyOfUsed(it, e, k, WhereText(it, e)))
